@@ -78,6 +78,8 @@ def check_case(ctx: runner.Ctx, case):
         return check_mro_case(ctx, case)
     if case.get("what") == "iodump":
         return check_io_case(ctx, case)
+    if case.get("what") == "subdump":
+        return check_subdump_case(ctx, case)
     if case.get("all_modes", True) and not ctx.replaying:
         # generation dominates the cost: evaluate the generated (type, datum) under every mode combination
         for strict in ((True, False) if case["what"] == "load" else (True,)):
@@ -269,6 +271,53 @@ def literal_table_cases():
                            "debug": 0}
 
 
+# ------------------------------------------------------------------------------------ a datetime in a slot declared date
+SUBDUMP_SHAPES = ["bare", "optional", "list", "dict_value", "tuple", "union_date_int", "union_int_date_str"]
+
+
+def subdump_cases():
+    """``datetime`` is a subclass of ``date``: a datetime object is a legitimate value of a slot declared ``date``.  Its outer form is
+    the one of the DECLARED type (the date's isoformat string, the only thing the date loader takes back), chosen by the
+    declaration and not by the runtime class -- also through the nearest-ancestor fallback of a union dumper."""
+    for shape in SUBDUMP_SHAPES:
+        for dbg in (0, 1, 2):
+            for strict in (True, False):
+                for tz in (False, True):
+                    yield {"what": "subdump", "shape": shape, "debug": dbg, "strict": strict, "tz": tz}
+
+
+def check_subdump_case(ctx, case):
+    import datetime as dt  # noqa: PLC0415
+    import typing as tp  # noqa: PLC0415
+    v = dt.datetime(2024, 2, 29, 13, 37, 5, 250000, tzinfo=dt.timezone.utc if case["tz"] else None)
+    exp = "2024-02-29"
+    shape = case["shape"]
+    hint, obj, want = {
+        "bare": (dt.date, v, exp), "optional": (tp.Optional[dt.date], v, exp), "list": (tp.List[dt.date], [v, dt.date(2024, 3, 1)], [exp, "2024-03-01"]),
+        "dict_value": (tp.Dict[str, dt.date], {"k": v}, {"k": exp}), "tuple": (tp.Tuple[int, dt.date], (1, v), (1, exp)),
+        "union_date_int": (tp.Union[dt.date, int], v, exp), "union_int_date_str": (tp.Union[int, dt.date, str], v, exp),
+    }[shape]
+    retort = Retort(strict_coercion=case["strict"], debug_trail=DEBUG[case["debug"]])
+    ctx.case(["subdump", case], True, sample={"what": "datetime_in_date_slot", **case}, labels=["what:subdump", f"shape:{shape}"])
+    try:
+        got = retort.dump(obj, hint)
+    except Exception as ex:  # noqa: BLE001
+        ctx.violation("subclass_value_dump_failed", (shape, type(ex).__name__), case, f"dump({obj!r}, {hint}) raised {describe(ex)}")
+        return
+    norm = list(got) if isinstance(got, tuple) and isinstance(want, (list, tuple)) else got
+    if norm != (list(want) if isinstance(want, tuple) else want):
+        ctx.violation("declared_date_dumped_by_runtime_class", (shape,), case,
+                      f"dump({obj!r}, {hint}) = {got!r}; the slot is declared date, whose outer form is the date's isoformat string "
+                      f"{want!r} (what the date loader accepts)")
+        return
+    try:
+        back = retort.load(got if not isinstance(got, tuple) else list(got), hint)
+    except Exception as ex:  # noqa: BLE001
+        ctx.violation("declared_date_dump_not_loadable", (shape,), case, f"load({got!r}, {hint}) raised {describe(ex)}")
+        return
+    del back
+
+
 # ------------------------------------------------------------------------------------ IO[bytes]: any binary stream
 # docs: IO[bytes] is "represented as base64 encoded string"; the hint admits every binary stream, not only BytesIO
 IO_STREAMS = ["bytesio", "bytesio_mid", "buffered_reader", "buffered_random", "raw_nonseekable", "tempfile"]
@@ -342,6 +391,9 @@ def explore(ctx: runner.Ctx):
     for i, c in enumerate(io_cases()):
         if i % ctx.nshards == ctx.shard:
             runner.guarded(ctx, lambda k: check_case(ctx, k), c)
+    for i, c in enumerate(subdump_cases()):
+        if i % ctx.nshards == ctx.shard:
+            runner.guarded(ctx, lambda k: check_case(ctx, k), c)
     for i, c in enumerate(mro_cases()):
         if i % ctx.nshards == ctx.shard and (ctx.tier == "thorough" or i % 7 == ctx.base_seed % 7):
             check_case(ctx, c)
@@ -352,6 +404,18 @@ def explore(ctx: runner.Ctx):
             runner.guarded(ctx, lambda k: check_case(ctx, k), c)
     ctx.mark_exhaustive(f"Literal table: {len(LITERAL_TABLE)} Literals x {len(LITERAL_DATA)} probe data x (plain, Optional, "
                         f"List) = {n_lit} cases x 6 mode combinations, each compared with the reference")
+    # the hostile table of C04 (every type-aimed hostile string / number against the scalar it aims at, bare and inside
+    # containers) through the reference: what must be REJECTED is rejected ("YWJj\n" is not base64 ...)
+    from props.c04_only_loaderror import hostile_table_cases  # noqa: PLC0415
+    n_host = 0
+    for c in hostile_table_cases():
+        if c["provs"] or c["strict"] or c["debug"]:   # the table repeats each pair per mode; check_case runs all six anyway
+            continue
+        n_host += 1
+        if n_host % ctx.nshards == ctx.shard:
+            runner.guarded(ctx, lambda k: check_case(ctx, k),
+                           {"what": "load", "t": c["t"], "datum": c["datum"], "ops": ["table"], "strict": True, "debug": 0})
+    ctx.mark_exhaustive(f"hostile table: {n_host} (scalar type in 4 positions, hostile datum) pairs x 6 mode combinations")
     if ctx.tier == "thorough":
         ctx.mark_exhaustive("union dumper MRO sub-check: all ordered 2- and 3-subsets of 8 classes x 9 values x 2 modes")
     ctx.given(st_case(), lambda c: check_case(ctx, c), ctx.budget(6000, 200000))
